@@ -7,6 +7,8 @@ mkdir -p bin evidence replays .work
 (cd engine/vinstr && go build -o ../../bin/vinstr .)
 # warm the build cache (repository packages + harness dependencies)
 (cd "$VERIF_REPO" && go build ./... >/dev/null 2>&1 || true)
+# ... and the race-instrumented standard library / repository packages used by the -race side pass
+(cd "$VERIF_REPO" && go build -race ./... >/dev/null 2>&1 || true)
 ./vcheck build selftest >/dev/null
 .work/build-selftest/selftest.bin > .work/selftest.out
 grep -q "rendezvous nosleep=false execs=4 " .work/selftest.out || { echo "scheduler selftest failed"; cat .work/selftest.out; exit 1; }
